@@ -70,7 +70,7 @@ def payload_st(draw, maxlen):
 def case_st(draw):
     variant = draw(st.sampled_from(["host", "target", "target"]))
     buf = BUF[variant]
-    extra = draw(st.lists(st.sampled_from([0, 1, 2, 3, 6, 7, 8, 11, 20, 64, 100, 125, 127]), max_size=2, unique=True))
+    extra = draw(st.lists(st.sampled_from([0, 0, 125, 125, 1, 2, 3, 6, 7, 8, 11, 20, 64, 100, 127]), max_size=2, unique=True))
     dlcis = sorted(set([4, 5, 9, 10] + extra))
     ops = []
     with_overlong = draw(st.booleans())
@@ -88,6 +88,12 @@ def case_st(draw):
             n = draw(st.sampled_from([buf, buf + 1, buf + 2, buf + 7, 2 * buf + 3, 5000]))
             fill = draw(st.sampled_from([0x55, 0x00, 0x7D, 0x7E, 0x20, 0x5E]))
             ops.append(("overlong", draw(st.sampled_from(dlcis)), n, fill))
+            if draw(st.booleans()):
+                # directly followed by a maximum-size frame, preferably on a DLCI whose address octet needs escaping
+                d = draw(st.sampled_from([x for x in dlcis if x in (0, 125)] or dlcis))
+                ops.append(("S", d, bytes([0x41]) * draw(st.sampled_from([buf - 1, buf - 1, buf - 2, buf - 3]))))
+                ops.append(("S", draw(st.sampled_from(dlcis)), b"after1"))
+                ops.append(("S", draw(st.sampled_from(dlcis)), b"after2"))
     return {"variant": variant, "dlcis": dlcis, "ops": ops}
 
 
